@@ -140,6 +140,22 @@ def Raw.validb (F : Raw) : Bool :=
   typeWords.contains F.type && namePieceOk F.filename && pieceOk isDg F.start &&
   pieceOk isNsp F.uuid && pieceOk isNsp F.dev
 
+/-- a token that `(\s(\d+))?` would not take whole -/
+def notAllDigits : Piece → Bool
+  | none => true
+  | some (_, t) => !t.all isDg
+
+def noQuote : Piece → Bool
+  | none => true
+  | some (_, t) => t.all (· != '"')
+
+/-- the pieces are written the way the regex's greedy, left-to-right reading takes them back: optional
+    fields are positional (a device identifier only after a partition uuid), an all-digit token after the
+    type / name is the start sector, and a later `"` would extend the quoted name -/
+def Raw.canonb (F : Raw) : Bool :=
+  (F.dev.isNone || F.uuid.isSome) && noQuote F.uuid && noQuote F.dev &&
+  (F.start.isSome || notAllDigits F.uuid)
+
 /-- `ExtentDescriptor.__post_init__` on the written pieces -/
 def Raw.toExtent (F : Raw) (line : Str) : Option Extent := do
   let sectors ← parseInt F.sectors
@@ -170,10 +186,11 @@ structure ExtentSpec where
 
 def digitChar (d : Nat) : Char := Char.ofNat (48 + d)
 
-/-- decimal digits, most significant first (`str(n)`) -/
-def natDigits (n : Nat) : Str :=
-  if _h : n < 10 then [digitChar n] else natDigits (n / 10) ++ [digitChar (n % 10)]
-decreasing_by omega
+/-- decimal digits, most significant first (`str(n)`); structural on a fuel that `n + 1` always covers -/
+def natDigitsF : Nat → Nat → Str
+  | 0, _ => []
+  | f + 1, n => if n < 10 then [digitChar n] else natDigitsF f (n / 10) ++ [digitChar (n % 10)]
+def natDigits (n : Nat) : Str := natDigitsF (n + 1) n
 
 def printExtentLine (e : ExtentSpec) : Str :=
   e.access ++ ' ' :: (natDigits e.sectors ++ ' ' :: (e.type ++
@@ -197,9 +214,12 @@ def wfExtent (e : ExtentSpec) : Bool :=
   accessWords.contains e.access && typeWords.contains e.type && nameOk e.filename &&
   tokOk e.uuid && tokOk e.dev &&
   (e.dev.isNone || e.uuid.isSome) &&                      -- fields are positional
-  (e.start.isSome || match e.uuid with                    -- an all-digit uuid without a start sector *is* the start sector
-                     | none => true
-                     | some u => !u.all isDg)
+  (e.start.isSome || notAllDigits (e.uuid.map (fun u => (' ', u))))   -- an all-digit uuid without a start sector *is* the start sector
+
+/-- the pieces `printExtentLine` writes -/
+def ExtentSpec.raw (e : ExtentSpec) : Raw :=
+  ⟨e.access, ' ', natDigits e.sectors, ' ', e.type, e.filename.map (fun n => (' ', '"' :: (n ++ ['"']))),
+   e.start.map (fun n => (' ', natDigits n)), e.uuid.map (fun u => (' ', u)), e.dev.map (fun d => (' ', d))⟩
 
 def ExtentSpec.toExtent (e : ExtentSpec) : Extent :=
   ⟨printExtentLine e, e.access, e.sectors, e.type, e.filename, e.start, e.uuid, e.dev⟩
